@@ -251,7 +251,7 @@ def body_perms(cfg, *ls):
         else:
             a = selection(IntraClassShuffleWrapper(ds, seed=seed))
         same = True
-        for g in (2, 3, 5):  # several other global RNG states
+        for g in (2, 3):  # other global RNG states
             np.random.seed(g)
             torch.manual_seed(g)
             if which == "shuffle":
@@ -438,7 +438,7 @@ def conditions(tier, rng):
     lp, lpre = [("l", "int")], ["0 <= l < 3"]
     # longer layouts for the two seeded shuffles (a 5-element shuffle under the global RNG differs
     # between global states with overwhelming probability, a 2-element one often does not)
-    for pf in ((0, 1, 2, 0), (1, 1, 0, 2, 0)):
+    for pf in ((1, 1, 0, 2, 0),):
         tag = "".join(map(str, pf)) + "?"
         for seed in seeds:
             for which in ("shuffle", "intra"):
